@@ -42,6 +42,7 @@ class Ctx:
         self.rule = ""
         self.obl = []                # obligation reports
         self.known_seen = []
+        self.vm_pool = {}            # op -> [(cmd, model output)] sample for the in-Coq cross-check of extraction
 
     # -- bookkeeping ---------------------------------------------------------
     def count(self, key, n=1):
@@ -70,7 +71,14 @@ class Ctx:
             self.notes.append("model not runnable: %r" % (e,))
             mout = ["ERR model-unavailable"] * len(cmds)
         res = []
+        cap = 12 if self.quick() else 60
         for cmd, mo in zip(cmds, mout):
+            op = cmd.split(" ", 1)[0]
+            pool = self.vm_pool.setdefault(op, [])
+            if len(pool) < cap and len(cmd) < 6000:
+                pool.append((cmd, mo))
+            elif len(cmd) < 6000 and self.rng.random() < 0.01:
+                pool[self.rng.randrange(cap)] = (cmd, mo)
             io_ = impl_fn(cmd)
             a, b = (canon(cmd, mo), canon(cmd, io_)) if canon else (mo, io_)
             self.evaluations += 1
@@ -124,6 +132,20 @@ def main():
     except Exception:  # the machinery itself failed: fail closed
         ctx.notes.append("harness exception: " + traceback.format_exc()[-3000:])
         ctx.disagreements.append({"cmd": "<harness>", "model": "", "impl": "exception", "label": "harness"})
+
+    # extraction cross-check: a sample of the executed commands is re-evaluated inside Coq (vm_compute)
+    vm = {"checked": 0, "ok": 0, "bad": [], "skipped": 0, "error": None}
+    try:
+        import vmcheck
+        pairs = [x for op in sorted(ctx.vm_pool) for x in ctx.vm_pool[op]]
+        if pairs and ctx.bld is not None and ctx.bld.ok:
+            vm = vmcheck.run(prop, pairs)
+            for b in vm["bad"]:
+                ctx.disagreements.append({"cmd": b["cmd"], "model": b["driver"], "impl": "(vm_compute in Coq differs)", "label": "extraction"})
+            if vm["error"]:
+                ctx.notes.append("vm cross-check: " + str(vm["error"])[:300])
+    except Exception:  # pylint: disable=broad-except
+        ctx.notes.append("vm cross-check failed to run: " + traceback.format_exc()[-500:])
 
     known = common.load_known(prop)
     open_known = [k for k in known if k.get("status") == "open"]
@@ -227,6 +249,8 @@ def main():
             "exhaustive": bool(ctx.exhaustive_parts),
             "exhaustive_parts": ctx.exhaustive_parts,
             "distribution": dict(sorted(ctx.distribution.items())[:80]),
+            "extraction_crosscheck": {"evaluated_in_coq_by_vm_compute": vm["checked"], "agree_with_ocaml": vm["ok"],
+                                      "differ": len(vm["bad"]), "not_expressible": vm["skipped"]},
             "translator": ctx.bld.translate_report.get("summary", {}) if ctx.bld else {},
             "translator_template_mismatches": ctx.bld.translate_report.get("template_mismatches", []) if ctx.bld else [],
             "build_wall_s": round(ctx.bld.wall, 1) if ctx.bld else None,
